@@ -16,6 +16,7 @@
 #include <vector>
 #include <utility>
 #include <cstring>
+#include <algorithm>
 using namespace foonathan::memory;
 using namespace verif;
 
@@ -204,14 +205,21 @@ static int run(bool high, const std::string& header)
             }
             res = "took " + std::to_string(got);
         }
-        else if (op == "rel")
-        {   // everything that lives in slot i's memory goes back through the object that owns it now
-            is >> i; if (i < 0 || i > 3 || state[i] != 'L') { std::printf("%s = skipped\n", line.c_str()); continue; }
+        else if (op == "rel" || op == "relp")
+        {   // what lives in slot i's memory goes back through the object that owns it now.
+            // rel i [seed]: everything, newest first for LIFO types, in a seeded shuffled order otherwise;  relp i a b: only every b-th handle
+            std::size_t a = 0, b = 1, seed = 0; is >> i; if (op == "relp") is >> a >> b; else is >> seed;
+            if (i < 0 || i > 3 || state[i] != 'L' || b == 0) { std::printf("%s = skipped\n", line.c_str()); continue; }
             check("before-release");
-            std::size_t n = 0;
-            for (std::size_t k = hs.size(); k-- > 0;)    // newest first (LIFO sources demand it, the others do not care)
-                if (hs[k].owner == i) { slots[i]->give(hs[k]); hs.erase(hs.begin() + long(k)); ++n; }
-            res = "released " + std::to_string(n);
+            std::vector<std::size_t> idx; std::size_t cnt = 0;
+            for (std::size_t k = 0; k < hs.size(); ++k) if (hs[k].owner == i) { if (cnt % b == a % b) idx.push_back(k); ++cnt; }
+            if (slots[i]->lifo_release()) { if (op == "relp") { std::printf("%s = skipped\n", line.c_str()); continue; } std::reverse(idx.begin(), idx.end()); }
+            else { std::reverse(idx.begin(), idx.end()); if (seed) for (std::size_t k = idx.size(); k > 1; --k) { seed = seed * 6364136223846793005ULL + 1442695040888963407ULL; std::swap(idx[k - 1], idx[(seed >> 33) % k]); } }
+            std::vector<handle> gone; for (auto k : idx) gone.push_back(hs[k]);
+            std::vector<std::size_t> sorted = idx; std::sort(sorted.begin(), sorted.end());
+            for (std::size_t k = sorted.size(); k-- > 0;) hs.erase(hs.begin() + long(sorted[k]));
+            for (auto& h : gone) slots[i]->give(h);
+            res = "released " + std::to_string(gone.size());
         }
         else if (op == "mc")
         {
